@@ -7,9 +7,10 @@ Rust: `crates/radicle/src/cob/{cache.rs, patch/cache.rs, issue/cache.rs, patch.r
 * **Truth** — what evaluating the objects directly from the repository yields: a table `Id ⇀ Obj`
   (`Patches::get/all`, `Issues::get/all`; `cob::list` iterates a `BTreeMap<ObjectId, _>`, i.e. in id
   order, and silently skips objects that fail to load).
-* **Cache** — the rows of the SQLite tables `patches` / `issues` belonging to this repository:
-  `Id ⇀ Json`, written by `Update::update` (`INSERT … ON CONFLICT DO UPDATE`, the JSON is
-  `serde_json::to_string(object)`) and `Remove::remove` (`DELETE … WHERE id = ?`).
+* **Cache** — the rows of the SQLite tables `patches` / `issues`, ONE database shared by all the
+  repositories of a storage: `Id ⇀ (repo, Json)`, written by `Update::update` (`INSERT … ON CONFLICT DO
+  UPDATE`, the JSON is `serde_json::to_string(object)`), `Remove::remove` (`DELETE … WHERE id = ?`) and
+  `remove_all` (`DELETE … WHERE repo = ?`); a handle of repository `r` reads the rows `WHERE repo = r`.
 * **Queries** on the cache are restated over the JSON tree exactly as the SQL reads it
   (`json_each` = the direct members of an object, `->`/`->>` path extraction, `GROUP BY`, `ORDER BY id`);
   queries on the truth are the Rust of the direct path (`Cache<_, NoCache>`).
@@ -340,14 +341,44 @@ def decIssue (j : Json) : Option Issue :=
 
 def stdIssueCodec : IssueCodec := { enc := encIssue, dec := decIssue, decState := decIState }
 
-/-! ## Store state and operations -/
+/-! ## Store state and operations
 
-/-- Truth and cache for one object type of one repository. -/
+The cache database is ONE file shared by every repository of the node's storage; the tables `patches` /
+`issues` have the columns `id` (PRIMARY KEY), `repo` and the JSON. Every repository has its own truth. -/
+
+abbrev Repo := String
+
+/-- A row of `patches` / `issues` (the table key is the `id` column). -/
+structure Row where
+  repo : Repo
+  json : Json
+  deriving DecidableEq, Repr
+
+/-- Truth of every repository and the shared cache table, for one object type. -/
 structure Store (α : Type) where
-  /-- direct evaluation of every object in the repository -/
-  truth : Table α
-  /-- rows of the SQLite table for this repository -/
-  cache : Table Json
+  /-- direct evaluation of every object of each repository -/
+  truth : Repo → Table α
+  /-- the rows of the shared SQLite table, keyed by `id` -/
+  cache : Table Row
+
+def setTruth {α : Type} (truth : Repo → Table α) (r : Repo) (t : Table α) : Repo → Table α :=
+  fun r' => if r' = r then t else truth r'
+
+/-- `Update::update`: `INSERT INTO t (id, repo, obj) VALUES (?1, ?2, ?3) ON CONFLICT DO UPDATE SET obj = (?3)`.
+The primary key is `id` alone: on conflict only the JSON column is replaced, the row keeps its `repo`. -/
+def cacheUpdate (r : Repo) (id : Id) (j : Json) (c : Table Row) : Table Row :=
+  c.upsert id ⟨match c.lookup id with | some row => row.repo | none => r, j⟩
+
+/-- `Remove::remove`: `DELETE FROM t WHERE id = ?1` — whatever the repository of the row. -/
+def cacheRemove (id : Id) (c : Table Row) : Table Row := c.erase id
+
+/-- `Remove::remove_all`: `DELETE FROM t WHERE repo = ?1`. -/
+def cacheRemoveAll (r : Repo) (c : Table Row) : Table Row := c.filter fun kv => kv.2.repo ≠ r
+
+/-- The rows a cache handle of repository `r` reads: every query has `WHERE repo = ?` (`get`:
+`WHERE id = ?1 AND repo = ?2`, i.e. `lookup id` in this view). -/
+def view (r : Repo) (c : Table Row) : Table Json :=
+  Table.image Row.json (c.filter fun kv => kv.2.repo = r)
 
 /-- A reference update handed to `cache_cobs` (already restricted to this object type). -/
 structure RefUpd where
@@ -356,13 +387,14 @@ structure RefUpd where
   skipped : Bool
   deriving DecidableEq, Repr
 
+/-- Operations on ONE repository (the repository is given to `Store.step`). -/
 inductive Op (α : Type) where
   /-- `Cache::create/draft`, any `PatchMut`/`IssueMut` transaction of the local signer that succeeded:
   the repository now evaluates `id` to `after`; the code calls `cache.update(rid, id, after)`. -/
   | write (id : Id) (after : α)
-  /-- `Cache::remove(id, signer)`: the signer's own reference is deleted (`Store::remove`), then the row
-  is deleted (`cache.remove(id)`). `after` is what the repository evaluates `id` to afterwards:
-  `none` when no other reference of the object remains. -/
+  /-- `Cache::remove(id, signer)`: the signer's own reference is deleted (`Store::remove`; nothing
+  happens if there is none), then the row is deleted (`cache.remove(id)`). `after` is what the repository
+  evaluates `id` to afterwards: `none` when no other reference of the object remains. -/
   | remove (id : Id) (after : Option α)
   /-- A fetch changed references: the objects in `changes` now evaluate to the given values; then
   `cache_cobs(refs)` runs `update_or_remove` for every non-skipped reference update. -/
@@ -378,41 +410,50 @@ inductive Op (α : Type) where
   | rewriteAll
 
 /-- `update_or_remove`: `store.get(id)` is `Some` ⇒ `cache.update`, otherwise `cache.remove`. -/
-def updateOrRemove {α : Type} (enc : α → Json) (truth : Table α) (cache : Table Json) (id : Id) :
-    Table Json :=
+def updateOrRemove {α : Type} (enc : α → Json) (truth : Table α) (r : Repo) (cache : Table Row) (id : Id) :
+    Table Row :=
   match truth.lookup id with
-  | some o => cache.upsert id (enc o)
-  | none => cache.erase id
+  | some o => cacheUpdate r id (enc o) cache
+  | none => cacheRemove id cache
 
 /-- `cache_cobs`. -/
-def cacheCobs {α : Type} (enc : α → Json) (truth : Table α) : Table Json → List RefUpd → Table Json
+def cacheCobs {α : Type} (enc : α → Json) (truth : Table α) (r : Repo) : Table Row → List RefUpd → Table Row
   | cache, [] => cache
-  | cache, r :: rs =>
-    if r.skipped then cacheCobs enc truth cache rs
-    else cacheCobs enc truth (updateOrRemove enc truth cache r.id) rs
+  | cache, u :: us =>
+    if u.skipped then cacheCobs enc truth r cache us
+    else cacheCobs enc truth r (updateOrRemove enc truth r cache u.id) us
 
 def applyChanges {α : Type} : Table α → List (Id × Option α) → Table α
   | t, [] => t
   | t, (id, o) :: cs => applyChanges (t.set id o) cs
 
-def Store.step {α : Type} (enc : α → Json) (s : Store α) : Op α → Store α
-  | .write id after => { truth := s.truth.upsert id after, cache := s.cache.upsert id (enc after) }
-  | .remove id after => { truth := s.truth.set id after, cache := s.cache.erase id }
+/-- The `update`s of `write_all`, one per object of `all()`. -/
+def writeRows {α : Type} (enc : α → Json) (r : Repo) : Table Row → Table α → Table Row
+  | c, [] => c
+  | c, (id, o) :: t => writeRows enc r (cacheUpdate r id (enc o) c) t
+
+/-- One operation on repository `r`. -/
+def Store.step {α : Type} (enc : α → Json) (s : Store α) (r : Repo) : Op α → Store α
+  | .write id after =>
+    { truth := setTruth s.truth r ((s.truth r).upsert id after), cache := cacheUpdate r id (enc after) s.cache }
+  | .remove id after =>
+    { truth := setTruth s.truth r ((s.truth r).set id after), cache := cacheRemove id s.cache }
   | .fetched changes refs =>
-    let truth := applyChanges s.truth changes
-    { truth, cache := cacheCobs enc truth s.cache refs }
-  | .external changes => { s with truth := applyChanges s.truth changes }
+    let t := applyChanges (s.truth r) changes
+    { truth := setTruth s.truth r t, cache := cacheCobs enc t r s.cache refs }
+  | .external changes => { s with truth := setTruth s.truth r (applyChanges (s.truth r) changes) }
   | .rewrite id =>
-    match s.truth.lookup id with
-    | some o => { s with cache := s.cache.upsert id (enc o) }
+    match (s.truth r).lookup id with
+    | some o => { s with cache := cacheUpdate r id (enc o) s.cache }
     | none => s
-  | .rewriteAll => { s with cache := s.truth.image enc }
+  | .rewriteAll => { s with cache := writeRows enc r (cacheRemoveAll r s.cache) (s.truth r) }
 
-def Store.run {α : Type} (enc : α → Json) (s : Store α) : List (Op α) → Store α
+/-- A history: operations tagged with the repository they are performed on. -/
+def Store.run {α : Type} (enc : α → Json) (s : Store α) : List (Repo × Op α) → Store α
   | [] => s
-  | op :: ops => Store.run enc (s.step enc op) ops
+  | (r, op) :: ops => Store.run enc (s.step enc r op) ops
 
-def Store.empty {α : Type} : Store α := { truth := [], cache := [] }
+def Store.empty {α : Type} : Store α := { truth := fun _ => [], cache := [] }
 
 /-! ## Query results -/
 
